@@ -15,7 +15,10 @@ def handle (op : String) (args : List String) : Option String :=
   | "exec" => do
     let req ← kvNat args "req"
     let atts ← (kv args "atts").bind fun s => if s = "_" then some [] else (s.splitOn ",").mapM parseAttempt
-    match execute req atts with
+    let r := match kvNat args "budget" with
+      | some b => executeBudget req atts b
+      | none => execute req atts
+    match r with
     | none => some "retrying"
     | some (.link p) => some s!"link {p}"
     | some (.err f) => some s!"err fatal={f}"
